@@ -13,7 +13,8 @@ META = {
             "up to 4 input blocks, staged compactions) are replayed: input blocks are real blocks with exactly the model's chunk "
             "layout and tombstones (Block.Delete), the real Compact/Write runs, the output block is queried and its index, "
             "chunks, time range and BlockMeta.Stats are compared with the prediction and with each other.",
-    "note": "Bounded: 1 series x 3 time points exhaustively (1 block with tombstones and range re-writes; 2 blocks float/histogram), "
+    "note": "Bounded: 1 series x 3 time points exhaustively (1 block with tombstones and range re-writes; 2 blocks float/histogram), 1 series x "
+            "4 time points x 2 full-range blocks of <=3 samples (twin chunk headers with different points/values), "
             "2 series x 6 time points x float/histogram/float-histogram by simulation. Values identify (type, source block, "
             "timestamp); which duplicate a merge keeps is left open as in the statement. Head ranges are represented by "
             "Write over a block reader (RangeHead/OOO heads are covered by C01). The concatenating merger is not applied: its "
@@ -34,7 +35,13 @@ def run(ctx):
     q = ctx.quick
     rnd = random.Random(ctx.seed)
     behs = []
-    for cfg, per_class in [("MC_quick.cfg", 2 if q else 4), ("MC_two.cfg", 6 if q else 20)]:
+    cfgs = [("MC_quick.cfg", 2 if q else 4), ("MC_two.cfg", 6 if q else 20),
+            # two inputs whose chunks have the same bounds, encoding and sample count ("twin" headers) but
+            # different interior timestamps / different values: the merger may only skip byte-identical chunks
+            ("MC_twin.cfg", 4 if q else 20)]
+    if not q:
+        cfgs.append(("MC_twinh.cfg", 20))
+    for cfg, per_class in cfgs:
         mc = ctx.tlc("compaction", "Compaction", cfg, workers=4, timeout=900)
         ctx.account(mc)
         by = {}
